@@ -112,6 +112,32 @@ used already and asked for triggers that random testing is unlikely to hit):
     hand from `__del__` - tokens yielded and tokens received by the loop are now counted and must agree after everything
     has been dropped; `C03-sum-sync-fast-path` (inexact floats, str/bytes sums compared between flavours),
     `C20-tee-of-tee-child-joins-parent` (a tee of a tee child).
+* round 6 (37 of 59 admitted changes missed at first; the brief now also excluded the *kinds* of trigger used so far;
+  one delivered change was rejected as outside every property's domain, see `seeded_rejected/`):
+  - numbers beyond 256 (`is` instead of `==`): `C01-islice-skip-compares-by-identity`, `C05-islice-skip-loop-identity-test`,
+    `C02-nlargest-shortcut-compares-len-by-identity` (huge mode: 258..330 items, parameters near their upper end);
+  - callables and sources: `C01-awaitify-async-dunder-call-shortcut` (a class whose instances have an async `__call__`),
+    `C03-awaitify-unwraps-wrapped-metadata` (sync stand-in with `functools.wraps(async def)`), `C04-aiter-prefers-sync-protocol`,
+    `C19-any-iter-prefers-sync-protocol`, `C14-enter-context-prefers-sync-protocol` (objects offering both protocols),
+    `C08-aiter-called-twice` (every cursor an async iterable hands out wants closing), `C03-cycle-reiterates-collections`
+    (the caller's list changed after the first pass), `C03-zip-returns-early-for-empty-sized-input` (the failing iterable
+    keeps its flavour in C03's baseline);
+  - exception classes: `C18-aenter-inside-attributeerror-try` (the cancellation thrown in may also be an AttributeError ...),
+    `C02-reduce-loop-inside-empty-check-try` (StopAsyncIteration from a reducer), `C13-systemexit-closes-instead-of-throwing`,
+    `C13-did-not-yield-message-uses-func-name` (partial generator functions), `C15-except-exc-type-before-stopasynciteration`,
+    `C14-pushed-sync-exit-in-extra-coroutine` (StopIteration from a synchronous exit);
+  - histories: `C14-unwind-loop-aliases-deque` (pop_all inside an exit), `C15-first-call-uses-the-decorating-instance` (one
+    manager, two functions), `C16-*` (closing / draining stale groups, non-transitive keys, keys comparable only among
+    themselves), `C06-stale-group-pulls-before-stale-check`, `C04-groupby-scan-path-not-released` (stale group stepped after
+    the new group's first item; faults on skipped items), `C07-tee-caches-anext-and-close-seals` (tools kept across
+    operations), `C07-aclose-swallows-already-running` (close during a pull in flight), `C10-*` (temporaries, colliding
+    hashes, `lru_cache(f, typed)`), `C11-callkey-eq-hash-or-values`, `C11-discard-rebinds-empty-dict` (an unbounded cache
+    still holds what was computed and never removed), `C12-value-stored-with-setattr`, `C12-dict-check-hoisted-to-owner-class`
+    (owners forbidding assignment, slotted mixins), `C20-abandoned-first-step-skips-cleanup`, `C20-merge-gallops-runs-into-a-list`
+    (block-wise merge inputs);
+  - `C17-*`: a new "misc" population (one ExitStack unwound by two tasks, `closing` around a suspending `aclose`, caches
+    over generator-based coroutines);
+  - and an enumeration bug of the harness itself: C18 / C08 never cancelled at the *first* suspension point (fixed).
 
 | id | change | needs to manifest | detected by its property's check | also caught by |
 |----|--------|-------------------|----------------------------------|----------------|
